@@ -120,16 +120,7 @@ func uniqifyName(definitions spec.Definitions, name string) (string, bool) {
 		return name, isOAIGen
 	}
 
-	unq := true
-	for k := range definitions {
-		if strings.EqualFold(k, name) {
-			unq = false
-
-			break
-		}
-	}
-
-	if unq {
+	if !isKnownName(definitions, name) {
 		return name, isOAIGen
 	}
 
@@ -137,16 +128,26 @@ func uniqifyName(definitions spec.Definitions, name string) (string, bool) {
 	isOAIGen = true
 	var idx int
 	unique := name
-	_, known := definitions[unique]
 
-	for known {
+	// the suffixed candidates must be unique up to letter case, just like the name itself
+	for isKnownName(definitions, unique) {
 		verifhook.Loop("uniqifyName")
 		idx++
 		unique = fmt.Sprintf("%s%d", name, idx)
-		_, known = definitions[unique]
 	}
 
 	return unique, isOAIGen
+}
+
+// isKnownName tells if a definition already goes by that name, up to letter case
+func isKnownName(definitions spec.Definitions, name string) bool {
+	for k := range definitions {
+		if strings.EqualFold(k, name) {
+			return true
+		}
+	}
+
+	return false
 }
 
 func namesFromKey(parts sortref.SplitKey, aschema *AnalyzedSchema, operations map[string]operations.OpRef) []string {
